@@ -7,6 +7,8 @@ import WpModel.Model.StyleDoc
 import WpModel.Model.StyleMemo
 import WpModel.Model.C06Branches
 import WpModel.Model.RatioCache
+import WpModel.Model.CssSpec
+import WpModel.Model.PresHints
 
 namespace Wp.Drive.Cascade
 open Wp Wp.Cascade Wp.Computed Wp.Style Wp.StyleDoc
@@ -276,6 +278,19 @@ def measureOf (table : List (Nat × Rat × Rat)) : RatioCache.Measure := fun s i
   | some (_, ex, ch) => if isEx then ex else ch
   | none => 0
 
+/-! ### presentational hints -/
+
+/-- Text as code points: `(s <code point>…)`. -/
+def text? : Sx → Option String
+  | .list (.atom "s" :: codes) => do
+    let codes ← allSome Sx.nat? codes
+    pure (String.ofList (codes.map Char.ofNat))
+  | _ => none
+
+def attr? : Sx → Option (String × String)
+  | .list [.atom name, v] => do pure (name, ← text? v)
+  | _ => none
+
 /-! ### dispatcher -/
 
 def handle (cmd : String) (args : List Sx) : Option String :=
@@ -358,6 +373,7 @@ def handle (cmd : String) (args : List Sx) : Option String :=
     | "length" => pure (" ".intercalate C06Branches.lengthUniverse)
     | "pagematch" => pure (" ".intercalate C06Branches.pageMatchUniverse)
     | "fontsize" => pure (" ".intercalate C06Branches.fontSizeUniverse)
+    | "specinitial" => pure (" ".intercalate (CssSpec.cssInitial.map (·.1)))
     | _ => none
   | "readseq", [ex, ch, .list chain, .list keys] => do
     let ex ← ex.rat?
@@ -367,6 +383,18 @@ def handle (cmd : String) (args : List Sx) : Option String :=
     let c ← StyleMemo.ctxOf ex ch chain
     pure (" ".intercalate ((keys.zip (StyleMemo.readSeq c [] keys)).map
       (fun p => p.1 ++ "=" ++ showValE p.2)))
+  | "hints", [.atom tag, .list attrs] => do
+    let attrs ← allSome attr? attrs
+    pure ("[" ++ " | ".intercalate (PresHints.hints tag attrs) ++ "]")
+  | "cellpadding", [.list attrs] => do
+    let attrs ← allSome attr? attrs
+    pure ((PresHints.cellPaddingHint attrs).getD "none")
+  | "specinherits", [.atom key] =>
+    pure (if CssSpec.specInherits key then "inherits" else "initial")
+  | "specinitial", [.atom key] =>
+    pure (match lookup key CssSpec.cssInitial with
+      | some v => v.render
+      | none => "not-pinned")
   | "ratioseq", [.list table, .list reqs] => do
     let table ← allSome measureRow? table
     let reqs ← allSome ratioReq? reqs
